@@ -194,6 +194,7 @@ impl Prop for Constructors {
         }
         // a private file per worker thread, removed afterwards
         let path = std::env::temp_dir().join(format!("seqio_verif_ctor_{}_{:?}", std::process::id(), std::thread::current().id()).replace(|ch: char| !ch.is_ascii_alphanumeric() && ch != '_', "_"));
+        let _cleanup = crate::util::TempPath(path.clone());
         if let Err(e) = std::fs::write(&path, &c.input.0) {
             fail!("harness/tempfile", "cannot write {}: {}", path.display(), e);
         }
